@@ -32,7 +32,7 @@ def floor(tier):
 
 
 def cases(tier, rng):
-    n = 96 if tier == "quick" else 3000
+    n = 96 if tier == "quick" else 12000
     out = []
     for i in range(n):
         mode = ["contract", "linear", "theory"][i % 3]
